@@ -969,6 +969,9 @@ func (t *TableCache) Populate(tableUpdates ovsdb.TableUpdates) error {
 		tCache := t.cache[table]
 		for uuid, row := range tu {
 			t.logger.V(5).Info("processing update", "table", table, "uuid", uuid)
+			if row == nil {
+				return fmt.Errorf("null row update for row %s of table %s", uuid, table)
+			}
 			update := updates.ModelUpdates{}
 			current := tCache.cache[uuid]
 			err := update.AddRowUpdate(t.dbModel, table, uuid, current, *row)
@@ -996,6 +999,9 @@ func (t *TableCache) Populate2(tableUpdates ovsdb.TableUpdates2) error {
 		tCache := t.cache[table]
 		for uuid, row := range tu {
 			t.logger.V(5).Info("processing update", "table", table, "uuid", uuid)
+			if row == nil {
+				return fmt.Errorf("null row update for row %s of table %s", uuid, table)
+			}
 			update := updates.ModelUpdates{}
 			current := tCache.cache[uuid]
 			if row.Initial == nil && row.Insert == nil && current == nil {
